@@ -556,7 +556,16 @@ def consumed_text(chk, fb):
         return
     b = tk[0]
     where = loc(b["span"])
-    allp = Interp(fb, _c08._P()).run(b, [Sym("text"), Sym("ops_in"), Sym("is_numeric")])
+    class _PT(_c08._P):
+        def inline(self, fn, args, interp, path):
+            # a scanning step moved into a private function of the parser that is handed the rest of the text and returns
+            # (what it matched, how many bytes): part of the tokenizer
+            hb_ = interp.callee_body(fn)
+            if hb_ is not None and hb_["path"].startswith("parser::") and hb_["path"] not in self.vocabulary and not hb_.get("public") \
+                    and hb_["arg_count"] == 1 and hb_["locals"][1]["ty"] == "&str" and hb_["locals"][0]["ty"].startswith("(") and "usize" in hb_["locals"][0]["ty"]:
+                return True
+            return super().inline(fn, args, interp, path)
+    allp = Interp(fb, _PT()).run(b, [Sym("text"), Sym("ops_in"), Sym("is_numeric")])
     if any(p.status not in ("return", "loop-pruned", "unreachable") for p in allp):
         chk.unrecognised("R07.6", "shape", "tokenizer shape not recognised", where)
         return
